@@ -2,7 +2,8 @@
 
    input, one case per line:
      ctl=<ops> cal=<ops> e0=<0|1> spur=<0|1> fix=<0|1> sched=<string over K C R>
-       ctl ops: S start, X stop, T trigger, e/d set enable on/off, p pause;   cal ops: G get_frame, W wait-running
+       ctl ops: S start, X stop, T trigger, e/d set enable on/off, p pause, b set rejected by the device (binning 3);
+       cal ops: G get_frame, W wait-running
        sched: the thread chosen at each step: K controller, C caller, R streamer of the current run
    output per case:
      CASE <n>
@@ -20,9 +21,9 @@ let rec int_of_pos = function XH -> 1 | XO p -> 2 * int_of_pos p | XI p -> 2 * i
 let int_of_z = function Z0 -> 0 | Zpos p -> int_of_pos p | Zneg p -> - (int_of_pos p)
 
 let kop_of_char = function
-  | 'S' -> KStart | 'X' -> KStop | 'T' -> KTrig | 'e' -> KSet true | 'd' -> KSet false | 'p' -> KPause
+  | 'S' -> KStart | 'X' -> KStop | 'T' -> KTrig | 'e' -> KSet true | 'd' -> KSet false | 'p' -> KPause | 'b' -> KRej
   | c -> failwith (Printf.sprintf "bad ctl op %c" c)
-let char_of_kop = function KStart -> 'S' | KStop -> 'X' | KTrig -> 'T' | KSet true -> 'e' | KSet false -> 'd' | KPause -> 'p'
+let char_of_kop = function KStart -> 'S' | KStop -> 'X' | KTrig -> 'T' | KSet true -> 'e' | KSet false -> 'd' | KPause -> 'p' | KRej -> 'b'
 let cop_of_char = function 'G' -> CGet | 'W' -> CWaitRun | c -> failwith (Printf.sprintf "bad cal op %c" c)
 let char_of_cop = function CGet -> 'G' | CWaitRun -> 'W'
 let tid_of_char = function 'K' -> Ctl | 'C' -> Cal | 'R' -> Str | c -> failwith (Printf.sprintf "bad thread %c" c)
@@ -42,7 +43,7 @@ let ev_s = function
   | EvWait -> "R W"
   | EvTrap -> "TRAP"
 let kpc_s = function KNew -> "new" | KIdle -> "idle" | KTrigLock -> "triglock" | KSetTrigLock _ -> "settriglock"
-                     | KSetLock _ -> "setlock" | KStopLock -> "stoplock" | KStopJoin -> "stopjoin" | KExit -> "exit" | KDone -> "done"
+                     | KSetLock _ -> "setlock" | KStopLock _ -> "stoplock" | KStopJoin _ -> "stopjoin" | KExit -> "exit" | KDone -> "done"
 let cpc_s = function CNew -> "new" | CIdle -> "idle" | CLock -> "lock" | CPre -> "prewait" | CWait -> "wait" | CExit -> "exit"
                      | CDone -> "done" | CTrap -> "trap"
 let spc_s = function SNone -> "none" | SCreate -> "create" | SLock1 -> "lock1" | SPre -> "prewait" | SWait -> "wait"
